@@ -84,7 +84,6 @@ package types
 //@   ensures[C15] len(names) == 0 ==> err == nil && result.0 == p.Services
 
 //@ func (*Project).getServicesByNames
-//@   except frame[S|Str|ce4060d18/ret2] : undischarged on the reference tree (engine limit or missing callee contract), not claimed
 //@   nopanic[C15]
 //@   pure
 //@   ensures[C15] len(names) == 0 ==> result.0 == p.Services && result.1 == nil
@@ -93,6 +92,7 @@ package types
 //@   ensures[C15] len(names) > 0 ==> forall i int :: 0 <= i && i < len(names) && has(p.Services, names[i]) ==> has(result.0, names[i])
 //@?  ensures[C15] len(names) > 0 ==> forall k string :: has(result.0, k) ==> exists i int :: 0 <= i && i < len(names) && names[i] == k
 //@   loop 1
+//@     invariant frame()
 //@     invariant -1 <= rangeindex && rangeindex < len(names)
 //@     invariant services != nil && fresh(services)
 //@     invariant forall k string :: has(services, k) ==> has(p.Services, k) && services[k] == p.Services[k]
@@ -195,7 +195,6 @@ package types
 //@     invariant forall k string :: seen(k) ==> (has(newProject.Services, k) || has(newProject.DisabledServices, k))
 
 //@ func (*Project).WithServicesDisabled
-//@   except frame[D|Str|T_types_ServiceConfig|ccb4e64ef/ret2], frame[D|Str|T_types_ServiceDependency|c8f68885c/ret2], frame[M|Str|T_types_ServiceConfig|ccb4e64ef/ret2] : undischarged on the reference tree (engine limit or missing callee contract), not claimed
 //@   nopanic[C14,C15]
 //@   pure
 //@   ensures[C14] result != nil && fresh(result)
@@ -216,6 +215,7 @@ package types
 //@?  ensures[C15] forall i int :: 0 <= i && i < len(names) ==> !has(result.Services, names[i])
 //@?  ensures[C15] forall k string :: has(p.Services, k) && !has(result.Services, k) ==> exists i int :: 0 <= i && i < len(names) && names[i] == k
 //@   loop 1
+//@     invariant frame()
 //@     invariant -1 <= rangeindex && rangeindex < len(names)
 //@      invariant newProject != nil && fresh(newProject)
 //@?      invariant newProject.Services == nil || newProject.Services != newProject.DisabledServices   // undischarged (a map just made is not known to differ from a map loaded from a field): not claimed
@@ -229,6 +229,7 @@ package types
 //@     invariant forall k string :: has(p.DisabledServices, k) ==> has(newProject.DisabledServices, k)
 //@     invariant forall k string, d string :: has(newProject.Services, k) && has(newProject.Services[k].DependsOn, d) ==> !(has(p.Services, d) && !has(newProject.Services, d))
 //@   loop 2
+//@     invariant frame()
 //@      invariant newProject != nil && fresh(newProject)
 //@?      invariant newProject.Services == nil || newProject.Services != newProject.DisabledServices   // undischarged (a map just made is not known to differ from a map loaded from a field): not claimed
 //@     invariant newProject.DisabledServices != nil && fresh(newProject.DisabledServices) && (newProject.Services == nil <==> p.Services == nil) && (newProject.Services != nil ==> fresh(newProject.Services))
@@ -258,6 +259,7 @@ package types
 // full statement (needs the element-wise model of copy() to relate the copied profile lists to the receiver's):
 //@?  ensures[C15] err == nil && wfp(p) ==> forall i int :: 0 <= i && i < len(names) && has(p.DisabledServices, names[i]) ==> has(result.Services, names[i])
 //@   loop 1
+//@     invariant frame()
 //@     invariant -1 <= rangeindex && rangeindex < len(names)
 //@     invariant newProject != nil && fresh(newProject)
 //@     invariant profiles == nil || fresh(profiles)
@@ -384,7 +386,6 @@ package types
 //@   ensures[C20] o.secretsContent
 
 //@ func (*marshallOptions).apply
-//@   except frame[D|Str|T_types_SecretConfig|c7c89da88/ret1], frame[M|Str|T_types_SecretConfig|c7c89da88/ret1] : undischarged on the reference tree (engine limit or missing callee contract), not claimed
 //@   nopanic[C14,C20]
 //@   requires p != nil
 //@   pure
@@ -397,6 +398,7 @@ package types
 //@?  ensures[C20] opt.secretsContent ==> forall k string :: has(result.Secrets, k) <==> has(p.Secrets, k)
 //@?  ensures[C20] opt.secretsContent ==> forall k string :: has(result.Secrets, k) ==> result.Secrets[k].Content == p.Secrets[k].Content && result.Secrets[k].Name == p.Secrets[k].Name && result.Secrets[k].Environment == p.Secrets[k].Environment && result.Secrets[k].File == p.Secrets[k].File
 //@   loop 1
+//@     invariant frame()
 //@     invariant p != nil && fresh(p) && (p.Secrets == nil || fresh(p.Secrets))
 //@     invariant forall k string :: seen(k) ==> has(p.Secrets, k) && p.Secrets[k].marshallContent
 
@@ -512,7 +514,6 @@ package types
 //@ spec copyOf_DiscreteGenericResource(cd DiscreteGenericResource, cs DiscreteGenericResource) bool = cd.Kind == cs.Kind && cd.Value == cs.Value && (cd.Extensions == nil <==> cs.Extensions == nil) && (cs.Extensions != nil ==> fresh(cd.Extensions)) && (forall kk string :: has(cd.Extensions, kk) <==> has(cs.Extensions, kk)) && (forall kk string :: has(cs.Extensions, kk) ==> cd.Extensions[kk] == cs.Extensions[kk])
 
 //@ func deriveDeepCopy
-//@   except frame[D|Str|Any|c8c47bee8/ret1], frame[D|Str|Int|c20f179b9/ret1], frame[D|Str|Int|c45ef07a9/ret1], frame[D|Str|Int|cf403b835/ret1], frame[D|Str|Slice|ce9990b8f/ret1], frame[D|Str|Str|cefb8f1e7/ret1], frame[D|Str|T_types_ServiceConfig|ccb4e64ef/ret1], frame[D|Str|T_types_ServiceDependency|c8f68885c/ret1], frame[HF|T_types_BlkioConfig|0/ret1], frame[HF|T_types_BlkioConfig|1/ret1], frame[HF|T_types_BlkioConfig|2/ret1], frame[HF|T_types_BlkioConfig|3/ret1], frame[HF|T_types_BlkioConfig|4/ret1], frame[HF|T_types_BlkioConfig|5/ret1], frame[HF|T_types_BlkioConfig|6/ret1], frame[HF|T_types_BuildConfig|0/ret1], frame[HF|T_types_BuildConfig|1/ret1], frame[HF|T_types_BuildConfig|10/ret1], frame[HF|T_types_BuildConfig|11/ret1], frame[HF|T_types_BuildConfig|12/ret1], frame[HF|T_types_BuildConfig|13/ret1], frame[HF|T_types_BuildConfig|14/ret1], frame[HF|T_types_BuildConfig|15/ret1], frame[HF|T_types_BuildConfig|16/ret1], frame[HF|T_types_BuildConfig|17/ret1], frame[HF|T_types_BuildConfig|18/ret1], frame[HF|T_types_BuildConfig|19/ret1], frame[HF|T_types_BuildConfig|2/ret1], frame[HF|T_types_BuildConfig|20/ret1], frame[HF|T_types_BuildConfig|21/ret1], frame[HF|T_types_BuildConfig|22/ret1], frame[HF|T_types_BuildConfig|3/ret1], frame[HF|T_types_BuildConfig|4/ret1], frame[HF|T_types_BuildConfig|5/ret1], frame[HF|T_types_BuildConfig|6/ret1], frame[HF|T_types_BuildConfig|7/ret1], frame[HF|T_types_BuildConfig|8/ret1], frame[HF|T_types_BuildConfig|9/ret1], frame[HF|T_types_CredentialSpecConfig|0/ret1], frame[HF|T_types_CredentialSpecConfig|1/ret1], frame[HF|T_types_CredentialSpecConfig|2/ret1], frame[HF|T_types_CredentialSpecConfig|3/ret1], frame[HF|T_types_DeployConfig|0/ret1], frame[HF|T_types_DeployConfig|1/ret1], frame[HF|T_types_DeployConfig|2/ret1], frame[HF|T_types_DeployConfig|3/ret1], frame[HF|T_types_DeployConfig|4/ret1], frame[HF|T_types_DeployConfig|5.0/ret1], frame[HF|T_types_DeployConfig|5.1/ret1], frame[HF|T_types_DeployConfig|5.2/ret1], frame[HF|T_types_DeployConfig|6/ret1], frame[HF|T_types_DeployConfig|7.0/ret1], frame[HF|T_types_DeployConfig|7.1/ret1], frame[HF|T_types_DeployConfig|7.2/ret1], frame[HF|T_types_DeployConfig|7.3/ret1], frame[HF|T_types_DeployConfig|8/ret1], frame[HF|T_types_DeployConfig|9/ret1], frame[HF|T_types_DevelopConfig|0/ret1], frame[HF|T_types_DevelopConfig|1/ret1], frame[HF|T_types_DeviceMapping|0/ret1], frame[HF|T_types_DeviceMapping|1/ret1], frame[HF|T_types_DeviceMapping|2/ret1], frame[HF|T_types_DeviceMapping|3/ret1], frame[HF|T_types_DeviceRequest|0/ret1], frame[HF|T_types_DeviceRequest|1/ret1], frame[HF|T_types_DeviceRequest|2/ret1], frame[HF|T_types_DeviceRequest|3/ret1], frame[HF|T_types_DeviceRequest|4/ret1], frame[HF|T_types_DiscreteGenericResource|0/ret1], frame[HF|T_types_DiscreteGenericResource|1/ret1], frame[HF|T_types_DiscreteGenericResource|2/ret1], frame[HF|T_types_ExtendsConfig|0/ret1], frame[HF|T_types_ExtendsConfig|1/ret1], frame[HF|T_types_GenericResource|0/ret1], frame[HF|T_types_GenericResource|1/ret1], frame[HF|T_types_HealthCheckConfig|0/ret1], frame[HF|T_types_HealthCheckConfig|1/ret1], frame[HF|T_types_HealthCheckConfig|2/ret1], frame[HF|T_types_HealthCheckConfig|3/ret1], frame[HF|T_types_HealthCheckConfig|4/ret1], frame[HF|T_types_HealthCheckConfig|5/ret1], frame[HF|T_types_HealthCheckConfig|6/ret1], frame[HF|T_types_HealthCheckConfig|7/ret1], frame[HF|T_types_LoggingConfig|0/ret1], frame[HF|T_types_LoggingConfig|1/ret1], frame[HF|T_types_LoggingConfig|2/ret1], frame[HF|T_types_PlacementPreferences|0/ret1], frame[HF|T_types_PlacementPreferences|1/ret1], frame[HF|T_types_Placement|0/ret1], frame[HF|T_types_Placement|1/ret1], frame[HF|T_types_Placement|2/ret1], frame[HF|T_types_Placement|3/ret1], frame[HF|T_types_Resources|0/ret1], frame[HF|T_types_Resources|1/ret1], frame[HF|T_types_Resources|2/ret1], frame[HF|T_types_Resource|0/ret1], frame[HF|T_types_Resource|1/ret1], frame[HF|T_types_Resource|2/ret1], frame[HF|T_types_Resource|3/ret1], frame[HF|T_types_Resource|4/ret1], frame[HF|T_types_Resource|5/ret1], frame[HF|T_types_RestartPolicy|0/ret1], frame[HF|T_types_RestartPolicy|1/ret1], frame[HF|T_types_RestartPolicy|2/ret1], frame[HF|T_types_RestartPolicy|3/ret1], frame[HF|T_types_RestartPolicy|4/ret1], frame[HF|T_types_ServiceConfigObjConfig|0/ret1], frame[HF|T_types_ServiceConfigObjConfig|1/ret1], frame[HF|T_types_ServiceConfigObjConfig|2/ret1], frame[HF|T_types_ServiceConfigObjConfig|3/ret1], frame[HF|T_types_ServiceConfigObjConfig|4/ret1], frame[HF|T_types_ServiceConfigObjConfig|5/ret1], frame[HF|T_types_ServiceConfig|0/ret1], frame[HF|T_types_ServiceConfig|1/ret1], frame[HF|T_types_ServiceConfig|10/ret1], frame[HF|T_types_ServiceConfig|11/ret1], frame[HF|T_types_ServiceConfig|12/ret1], frame[HF|T_types_ServiceConfig|13/ret1], frame[HF|T_types_ServiceConfig|14/ret1], frame[HF|T_types_ServiceConfig|15/ret1], frame[HF|T_types_ServiceConfig|16/ret1], frame[HF|T_types_ServiceConfig|17/ret1], frame[HF|T_types_ServiceConfig|18/ret1], frame[HF|T_types_ServiceConfig|19/ret1], frame[HF|T_types_ServiceConfig|2/ret1], frame[HF|T_types_ServiceConfig|20/ret1], frame[HF|T_types_ServiceConfig|21/ret1], frame[HF|T_types_ServiceConfig|22/ret1], frame[HF|T_types_ServiceConfig|23/ret1], frame[HF|T_types_ServiceConfig|24/ret1], frame[HF|T_types_ServiceConfig|25/ret1], frame[HF|T_types_ServiceConfig|26/ret1], frame[HF|T_types_ServiceConfig|27/ret1], frame[HF|T_types_ServiceConfig|28/ret1], frame[HF|T_types_ServiceConfig|29/ret1], frame[HF|T_types_ServiceConfig|3/ret1], frame[HF|T_types_ServiceConfig|30/ret1], frame[HF|T_types_ServiceConfig|31/ret1], frame[HF|T_types_ServiceConfig|32/ret1], frame[HF|T_types_ServiceConfig|33/ret1], frame[HF|T_types_ServiceConfig|34/ret1], frame[HF|T_types_ServiceConfig|35/ret1], frame[HF|T_types_ServiceConfig|36/ret1], frame[HF|T_types_ServiceConfig|37/ret1], frame[HF|T_types_ServiceConfig|38/ret1], frame[HF|T_types_ServiceConfig|39/ret1], frame[HF|T_types_ServiceConfig|4/ret1], frame[HF|T_types_ServiceConfig|40/ret1], frame[HF|T_types_ServiceConfig|41/ret1], frame[HF|T_types_ServiceConfig|42/ret1], frame[HF|T_types_ServiceConfig|43/ret1], frame[HF|T_types_ServiceConfig|44/ret1], frame[HF|T_types_ServiceConfig|45/ret1], frame[HF|T_types_ServiceConfig|46/ret1], frame[HF|T_types_ServiceConfig|47/ret1], frame[HF|T_types_ServiceConfig|48/ret1], frame[HF|T_types_ServiceConfig|49/ret1], frame[HF|T_types_ServiceConfig|5/ret1], frame[HF|T_types_ServiceConfig|50/ret1], frame[HF|T_types_ServiceConfig|51/ret1], frame[HF|T_types_ServiceConfig|52/ret1], frame[HF|T_types_ServiceConfig|53/ret1], frame[HF|T_types_ServiceConfig|54/ret1], frame[HF|T_types_ServiceConfig|55/ret1], frame[HF|T_types_ServiceConfig|56/ret1], frame[HF|T_types_ServiceConfig|57/ret1], frame[HF|T_types_ServiceConfig|58/ret1], frame[HF|T_types_ServiceConfig|59/ret1], frame[HF|T_types_ServiceConfig|6/ret1], frame[HF|T_types_ServiceConfig|60/ret1], frame[HF|T_types_ServiceConfig|61/ret1], frame[HF|T_types_ServiceConfig|62/ret1], frame[HF|T_types_ServiceConfig|63/ret1], frame[HF|T_types_ServiceConfig|64/ret1], frame[HF|T_types_ServiceConfig|65/ret1], frame[HF|T_types_ServiceConfig|66/ret1], frame[HF|T_types_ServiceConfig|67/ret1], frame[HF|T_types_ServiceConfig|68/ret1], frame[HF|T_types_ServiceConfig|69/ret1], frame[HF|T_types_ServiceConfig|7/ret1], frame[HF|T_types_ServiceConfig|70/ret1], frame[HF|T_types_ServiceConfig|71/ret1], frame[HF|T_types_ServiceConfig|72/ret1], frame[HF|T_types_ServiceConfig|73/ret1], frame[HF|T_types_ServiceConfig|74/ret1], frame[HF|T_types_ServiceConfig|75/ret1], frame[HF|T_types_ServiceConfig|76/ret1], frame[HF|T_types_ServiceConfig|77/ret1], frame[HF|T_types_ServiceConfig|78/ret1], frame[HF|T_types_ServiceConfig|79/ret1], frame[HF|T_types_ServiceConfig|8/ret1], frame[HF|T_types_ServiceConfig|80/ret1], frame[HF|T_types_ServiceConfig|81/ret1], frame[HF|T_types_ServiceConfig|82/ret1], frame[HF|T_types_ServiceConfig|83/ret1], frame[HF|T_types_ServiceConfig|84/ret1], frame[HF|T_types_ServiceConfig|85/ret1], frame[HF|T_types_ServiceConfig|86/ret1], frame[HF|T_types_ServiceConfig|87/ret1], frame[HF|T_types_ServiceConfig|88/ret1], frame[HF|T_types_ServiceConfig|89/ret1], frame[HF|T_types_ServiceConfig|9/ret1], frame[HF|T_types_ServiceConfig|90/ret1], frame[HF|T_types_ServiceConfig|91/ret1], frame[HF|T_types_ServiceConfig|92/ret1], frame[HF|T_types_ServiceConfig|93/ret1], frame[HF|T_types_ServiceConfig|94/ret1], frame[HF|T_types_ServiceConfig|95/ret1], frame[HF|T_types_ServiceDependency|0/ret1], frame[HF|T_types_ServiceDependency|1/ret1], frame[HF|T_types_ServiceDependency|2/ret1], frame[HF|T_types_ServiceDependency|3/ret1], frame[HF|T_types_ServiceHook|0/ret1], frame[HF|T_types_ServiceHook|1/ret1], frame[HF|T_types_ServiceHook|2/ret1], frame[HF|T_types_ServiceHook|3/ret1], frame[HF|T_types_ServiceHook|4/ret1], frame[HF|T_types_ServiceHook|5/ret1], frame[HF|T_types_ServiceNetworkConfig|0/ret1], frame[HF|T_types_ServiceNetworkConfig|1/ret1], frame[HF|T_types_ServiceNetworkConfig|2/ret1], frame[HF|T_types_ServiceNetworkConfig|3/ret1], frame[HF|T_types_ServiceNetworkConfig|4/ret1], frame[HF|T_types_ServiceNetworkConfig|5/ret1], frame[HF|T_types_ServiceNetworkConfig|6/ret1], frame[HF|T_types_ServiceNetworkConfig|7/ret1], frame[HF|T_types_ServicePortConfig|0/ret1], frame[HF|T_types_ServicePortConfig|1/ret1], frame[HF|T_types_ServicePortConfig|2/ret1], frame[HF|T_types_ServicePortConfig|3/ret1], frame[HF|T_types_ServicePortConfig|4/ret1], frame[HF|T_types_ServicePortConfig|5/ret1], frame[HF|T_types_ServicePortConfig|6/ret1], frame[HF|T_types_ServicePortConfig|7/ret1], frame[HF|T_types_ServiceSecretConfig|0/ret1], frame[HF|T_types_ServiceSecretConfig|1/ret1], frame[HF|T_types_ServiceSecretConfig|2/ret1], frame[HF|T_types_ServiceSecretConfig|3/ret1], frame[HF|T_types_ServiceSecretConfig|4/ret1], frame[HF|T_types_ServiceSecretConfig|5/ret1], frame[HF|T_types_ServiceVolumeBind|0/ret1], frame[HF|T_types_ServiceVolumeBind|1/ret1], frame[HF|T_types_ServiceVolumeBind|2/ret1], frame[HF|T_types_ServiceVolumeBind|3/ret1], frame[HF|T_types_ServiceVolumeBind|4/ret1], frame[HF|T_types_ServiceVolumeConfig|0/ret1], frame[HF|T_types_ServiceVolumeConfig|1/ret1], frame[HF|T_types_ServiceVolumeConfig|2/ret1], frame[HF|T_types_ServiceVolumeConfig|3/ret1], frame[HF|T_types_ServiceVolumeConfig|4/ret1], frame[HF|T_types_ServiceVolumeConfig|5/ret1], frame[HF|T_types_ServiceVolumeConfig|6/ret1], frame[HF|T_types_ServiceVolumeConfig|7/ret1], frame[HF|T_types_ServiceVolumeConfig|8/ret1], frame[HF|T_types_ServiceVolumeTmpfs|0/ret1], frame[HF|T_types_ServiceVolumeTmpfs|1/ret1], frame[HF|T_types_ServiceVolumeTmpfs|2/ret1], frame[HF|T_types_ServiceVolumeVolume|0/ret1], frame[HF|T_types_ServiceVolumeVolume|1/ret1], frame[HF|T_types_ServiceVolumeVolume|2/ret1], frame[HF|T_types_ThrottleDevice|0/ret1], frame[HF|T_types_ThrottleDevice|1/ret1], frame[HF|T_types_ThrottleDevice|2/ret1], frame[HF|T_types_Trigger|0/ret1], frame[HF|T_types_Trigger|1/ret1], frame[HF|T_types_Trigger|2/ret1], frame[HF|T_types_Trigger|3.0/ret1], frame[HF|T_types_Trigger|3.1/ret1], frame[HF|T_types_Trigger|3.2/ret1], frame[HF|T_types_Trigger|3.3/ret1], frame[HF|T_types_Trigger|3.4/ret1], frame[HF|T_types_Trigger|3.5/ret1], frame[HF|T_types_Trigger|4/ret1], frame[HF|T_types_Trigger|5/ret1], frame[HF|T_types_UlimitsConfig|0/ret1], frame[HF|T_types_UlimitsConfig|1/ret1], frame[HF|T_types_UlimitsConfig|2/ret1], frame[HF|T_types_UlimitsConfig|3/ret1], frame[HF|T_types_UpdateConfig|0/ret1], frame[HF|T_types_UpdateConfig|1/ret1], frame[HF|T_types_UpdateConfig|2/ret1], frame[HF|T_types_UpdateConfig|3/ret1], frame[HF|T_types_UpdateConfig|4/ret1], frame[HF|T_types_UpdateConfig|5/ret1], frame[HF|T_types_UpdateConfig|6/ret1], frame[HF|T_types_WeightDevice|0/ret1], frame[HF|T_types_WeightDevice|1/ret1], frame[HF|T_types_WeightDevice|2/ret1], frame[H|Bool|c3fb53125/ret1], frame[H|Int|ca9c96646/ret1], frame[H|Int|cda0c344b/ret1], frame[H|Int|cddff6ea4/ret1], frame[H|Int|cfdeebdd5/ret1], frame[H|Str|cf613ccd0/ret1], frame[M|Str|Any|c8c47bee8/ret1], frame[M|Str|Int|c20f179b9/ret1], frame[M|Str|Int|c45ef07a9/ret1], frame[M|Str|Int|cf403b835/ret1], frame[M|Str|Slice|ce9990b8f/ret1], frame[M|Str|Str|cefb8f1e7/ret1], frame[M|Str|T_types_ServiceConfig|ccb4e64ef/ret1], frame[M|Str|T_types_ServiceDependency|c8f68885c/ret1], frame[S|Str|ce4060d18/ret1], frame[S|T_types_DeviceMapping|cdaeeaf7/ret1], frame[S|T_types_DeviceRequest|ceb56bbec/ret1], frame[S|T_types_EnvFile|cb06b1dc2/ret1], frame[S|T_types_GenericResource|ca7cbadd2/ret1], frame[S|T_types_PlacementPreferences|cc78aba7a/ret1], frame[S|T_types_SSHKey|ca63f0a58/ret1], frame[S|T_types_ServiceConfigObjConfig|c22bbd9ed/ret1], frame[S|T_types_ServiceHook|c7b10ac63/ret1], frame[S|T_types_ServicePortConfig|c48b1ecbd/ret1], frame[S|T_types_ServiceSecretConfig|c17967466/ret1], frame[S|T_types_ServiceVolumeConfig|cbcd59a70/ret1], frame[S|T_types_ThrottleDevice|ce78aa81b/ret1], frame[S|T_types_Trigger|cc0f38b63/ret1], frame[S|T_types_WeightDevice|c34ab9637/ret1] : undischarged on the reference tree (engine limit or missing callee contract), not claimed
 //@   nopanic[C14,C20]
 //@   requires dst != nil && dst != src
 //@   assigns dst.*
@@ -522,6 +523,7 @@ package types
 // the slim ownership statement the derivations need: no container of a copied service existed before the call
 //@   ensures[C14] forall k string :: has(src, k) ==> mapsFresh(dst[k])
 //@   loop 1
+//@     invariant frame()
 //@     invariant forall k string :: seen(k) ==> has(src, k) && has(dst, k)
 //@     invariant forall k string :: !seen(k) ==> (has(dst, k) <==> old(has(dst, k)))
 //@     invariant forall k string :: seen(k) ==> mapsFresh(dst[k])
@@ -874,7 +876,6 @@ package types
 //@   ensures[C14] dst.LogOpt == nil || dst.LogOpt != dst.StorageOpt
 
 //@ func deriveDeepCopy_
-//@   except frame[D|Str|Any|c8c47bee8/ret1], frame[D|Str|Str|cefb8f1e7/ret1], frame[D|Str|T_types_NetworkConfig|cde81b102/ret1], frame[HF|T_types_IPAMConfig|0/ret1], frame[HF|T_types_IPAMConfig|1/ret1], frame[HF|T_types_IPAMConfig|2/ret1], frame[HF|T_types_IPAMPool|0/ret1], frame[HF|T_types_IPAMPool|1/ret1], frame[HF|T_types_IPAMPool|2/ret1], frame[HF|T_types_IPAMPool|3/ret1], frame[HF|T_types_IPAMPool|4/ret1], frame[HF|T_types_NetworkConfig|0/ret1], frame[HF|T_types_NetworkConfig|1/ret1], frame[HF|T_types_NetworkConfig|10/ret1], frame[HF|T_types_NetworkConfig|2/ret1], frame[HF|T_types_NetworkConfig|3.0/ret1], frame[HF|T_types_NetworkConfig|3.1/ret1], frame[HF|T_types_NetworkConfig|3.2/ret1], frame[HF|T_types_NetworkConfig|4/ret1], frame[HF|T_types_NetworkConfig|5/ret1], frame[HF|T_types_NetworkConfig|6/ret1], frame[HF|T_types_NetworkConfig|7/ret1], frame[HF|T_types_NetworkConfig|8/ret1], frame[HF|T_types_NetworkConfig|9/ret1], frame[H|Bool|c3fb53125/ret1], frame[M|Str|Any|c8c47bee8/ret1], frame[M|Str|Str|cefb8f1e7/ret1], frame[M|Str|T_types_NetworkConfig|cde81b102/ret1], frame[S|Int|cca883e7c/ret1] : undischarged on the reference tree (engine limit or missing callee contract), not claimed
 //@   nopanic[C14,C20]
 //@   requires dst != nil && dst != src
 //@   assigns dst.*
@@ -882,6 +883,7 @@ package types
 //@   ensures[C14] forall k string :: !has(src, k) ==> (has(dst, k) <==> old(has(dst, k)))
 //@?   ensures[C14] forall k string :: has(src, k) ==> copyOf_NetworkConfig(dst[k], src[k])   // undischarged on the reference tree: not claimed
 //@   loop 1
+//@     invariant frame()
 //@     invariant forall k string :: seen(k) ==> has(src, k) && has(dst, k)
 //@     invariant forall k string :: !seen(k) ==> (has(dst, k) <==> old(has(dst, k)))
 //@?     invariant forall k string :: seen(k) ==> copyOf_NetworkConfig(dst[k], src[k])   // undischarged on the reference tree: not claimed
@@ -917,7 +919,6 @@ package types
 //@   ensures[C14] (forall kk string :: has(src_value.Extensions, kk) ==> dst[src_key].Extensions[kk] == src_value.Extensions[kk])
 
 //@ func deriveDeepCopy_1
-//@   except frame[D|Str|Any|c8c47bee8/ret1], frame[D|Str|Str|cefb8f1e7/ret1], frame[D|Str|T_types_VolumeConfig|c716e3656/ret1], frame[HF|T_types_VolumeConfig|0/ret1], frame[HF|T_types_VolumeConfig|1/ret1], frame[HF|T_types_VolumeConfig|2/ret1], frame[HF|T_types_VolumeConfig|3/ret1], frame[HF|T_types_VolumeConfig|4/ret1], frame[HF|T_types_VolumeConfig|5/ret1], frame[HF|T_types_VolumeConfig|6/ret1], frame[M|Str|Any|c8c47bee8/ret1], frame[M|Str|Str|cefb8f1e7/ret1], frame[M|Str|T_types_VolumeConfig|c716e3656/ret1] : undischarged on the reference tree (engine limit or missing callee contract), not claimed
 //@   nopanic[C14,C20]
 //@   requires dst != nil && dst != src
 //@   assigns dst.*
@@ -925,6 +926,7 @@ package types
 //@   ensures[C14] forall k string :: !has(src, k) ==> (has(dst, k) <==> old(has(dst, k)))
 //@?   ensures[C14] forall k string :: has(src, k) ==> copyOf_VolumeConfig(dst[k], src[k])   // undischarged on the reference tree: not claimed
 //@   loop 1
+//@     invariant frame()
 //@     invariant forall k string :: seen(k) ==> has(src, k) && has(dst, k)
 //@     invariant forall k string :: !seen(k) ==> (has(dst, k) <==> old(has(dst, k)))
 //@?     invariant forall k string :: seen(k) ==> copyOf_VolumeConfig(dst[k], src[k])   // undischarged on the reference tree: not claimed
@@ -952,7 +954,6 @@ package types
 //@   ensures[C14] (forall kk string :: has(src_value.Extensions, kk) ==> dst[src_key].Extensions[kk] == src_value.Extensions[kk])
 
 //@ func deriveDeepCopy_10
-//@   except frame[D|Str|Any|c8c47bee8/ret1], frame[D|Str|T_types_ServiceDependency|c8f68885c/ret1], frame[HF|T_types_ServiceDependency|0/ret1], frame[HF|T_types_ServiceDependency|1/ret1], frame[HF|T_types_ServiceDependency|2/ret1], frame[HF|T_types_ServiceDependency|3/ret1], frame[M|Str|Any|c8c47bee8/ret1], frame[M|Str|T_types_ServiceDependency|c8f68885c/ret1] : undischarged on the reference tree (engine limit or missing callee contract), not claimed
 //@   nopanic[C14,C20]
 //@   requires dst != nil && dst != src
 //@   assigns dst.*
@@ -960,6 +961,7 @@ package types
 //@   ensures[C14] forall k string :: !has(src, k) ==> (has(dst, k) <==> old(has(dst, k)))
 //@?   ensures[C14] forall k string :: has(src, k) ==> copyOf_ServiceDependency(dst[k], src[k])   // undischarged on the reference tree: not claimed
 //@   loop 1
+//@     invariant frame()
 //@     invariant forall k string :: seen(k) ==> has(src, k) && has(dst, k)
 //@     invariant forall k string :: !seen(k) ==> (has(dst, k) <==> old(has(dst, k)))
 //@?     invariant forall k string :: seen(k) ==> copyOf_ServiceDependency(dst[k], src[k])   // undischarged on the reference tree: not claimed
@@ -1035,12 +1037,12 @@ package types
 //@   ensures[C14] (forall kk string :: has(src.Placement.Extensions, kk) ==> dst.Placement.Extensions[kk] == src.Placement.Extensions[kk])
 
 //@ func deriveDeepCopy_12
-//@   except frame[D|Str|Any|c8c47bee8/ret1], frame[HF|T_types_DeviceMapping|0/ret1], frame[HF|T_types_DeviceMapping|1/ret1], frame[HF|T_types_DeviceMapping|2/ret1], frame[HF|T_types_DeviceMapping|3/ret1], frame[M|Str|Any|c8c47bee8/ret1], frame[S|T_types_DeviceMapping|cdaeeaf7/ret1] : undischarged on the reference tree (engine limit or missing callee contract), not claimed
 //@   nopanic[C14,C20]
 //@   requires len(dst) >= len(src) && (len(src) > 0 ==> dst != src)
 //@   assigns dst.*
 //@?   ensures[C14] forall j int :: 0 <= j && j < len(src) ==> copyOf_DeviceMapping(dst[j], src[j])   // undischarged on the reference tree: not claimed
 //@   loop 1
+//@     invariant frame()
 //@     invariant -1 <= rangeindex && rangeindex < len(src)
 //@?     invariant forall j int :: 0 <= j && j <= rangeindex ==> copyOf_DeviceMapping(dst[j], src[j])   // undischarged on the reference tree: not claimed
 
@@ -1057,7 +1059,6 @@ package types
 //@   ensures[C14] (forall kk string :: has(src_value.Extensions, kk) ==> dst[src_i].Extensions[kk] == src_value.Extensions[kk])
 
 //@ func deriveDeepCopy_13
-//@   except frame[H|Str|cf613ccd0/ret1] : undischarged on the reference tree (engine limit or missing callee contract), not claimed
 //@   nopanic[C14,C20]
 //@   requires dst != nil && dst != src
 //@   assigns dst.*
@@ -1065,6 +1066,7 @@ package types
 //@   ensures[C14] forall k string :: !has(src, k) ==> (has(dst, k) <==> old(has(dst, k)))
 //@   ensures[C14] forall k string :: has(src, k) ==> (dst[k] == nil <==> src[k] == nil) && (src[k] != nil ==> fresh(dst[k]))
 //@   loop 1
+//@     invariant frame()
 //@     invariant forall k string :: seen(k) ==> has(src, k) && has(dst, k)
 //@     invariant forall k string :: !seen(k) ==> (has(dst, k) <==> old(has(dst, k)))
 //@     invariant forall k string :: seen(k) ==> (dst[k] == nil <==> src[k] == nil) && (src[k] != nil ==> fresh(dst[k]))
@@ -1078,17 +1080,18 @@ package types
 //@   ensures[C14] forall k string :: !has(src, k) ==> (has(dst, k) <==> old(has(dst, k)))
 //@?   ensures[C14] forall k string :: has(src, k) ==> (dst[k] == nil <==> src[k] == nil) && (src[k] != nil ==> fresh(dst[k])) && len(dst[k]) == len(src[k])   // undischarged on the reference tree: not claimed
 //@   loop 1
+//@?     invariant frame()   // undischarged on the reference tree: not claimed
 //@     invariant forall k string :: seen(k) ==> has(src, k) && has(dst, k)
 //@     invariant forall k string :: !seen(k) ==> (has(dst, k) <==> old(has(dst, k)))
 //@?     invariant forall k string :: seen(k) ==> (dst[k] == nil <==> src[k] == nil) && (src[k] != nil ==> fresh(dst[k])) && len(dst[k]) == len(src[k])   // undischarged on the reference tree: not claimed
 
 //@ func deriveDeepCopy_15
-//@   except frame[D|Str|Str|cefb8f1e7/ret1], frame[HF|T_types_DeviceRequest|0/ret1], frame[HF|T_types_DeviceRequest|1/ret1], frame[HF|T_types_DeviceRequest|2/ret1], frame[HF|T_types_DeviceRequest|3/ret1], frame[HF|T_types_DeviceRequest|4/ret1], frame[M|Str|Str|cefb8f1e7/ret1], frame[S|Str|ce4060d18/ret1], frame[S|T_types_DeviceRequest|ceb56bbec/ret1] : undischarged on the reference tree (engine limit or missing callee contract), not claimed
 //@   nopanic[C14,C20]
 //@   requires len(dst) >= len(src) && (len(src) > 0 ==> dst != src)
 //@   assigns dst.*
 //@?   ensures[C14] forall j int :: 0 <= j && j < len(src) ==> copyOf_DeviceRequest(dst[j], src[j])   // undischarged on the reference tree: not claimed
 //@   loop 1
+//@     invariant frame()
 //@     invariant -1 <= rangeindex && rangeindex < len(src)
 //@?     invariant forall j int :: 0 <= j && j <= rangeindex ==> copyOf_DeviceRequest(dst[j], src[j])   // undischarged on the reference tree: not claimed
 
@@ -1134,7 +1137,6 @@ package types
 //@   ensures[C14] (forall kk string :: has(src.Extensions, kk) ==> dst.Extensions[kk] == src.Extensions[kk])
 
 //@ func deriveDeepCopy_18
-//@   except frame[D|Str|Any|c8c47bee8/ret1], frame[D|Str|Str|cefb8f1e7/ret1], frame[HF|T_types_ServiceNetworkConfig|0/ret1], frame[HF|T_types_ServiceNetworkConfig|1/ret1], frame[HF|T_types_ServiceNetworkConfig|2/ret1], frame[HF|T_types_ServiceNetworkConfig|3/ret1], frame[HF|T_types_ServiceNetworkConfig|4/ret1], frame[HF|T_types_ServiceNetworkConfig|5/ret1], frame[HF|T_types_ServiceNetworkConfig|6/ret1], frame[HF|T_types_ServiceNetworkConfig|7/ret1], frame[M|Str|Any|c8c47bee8/ret1], frame[M|Str|Str|cefb8f1e7/ret1], frame[S|Str|ce4060d18/ret1] : undischarged on the reference tree (engine limit or missing callee contract), not claimed
 //@   nopanic[C14,C20]
 //@   requires dst != nil && dst != src
 //@   assigns dst.*
@@ -1143,18 +1145,19 @@ package types
 //@   ensures[C14] forall k string :: has(src, k) ==> (dst[k] == nil <==> src[k] == nil) && (src[k] != nil ==> fresh(dst[k]))
 //@?   ensures[C14] forall k string :: has(src, k) ==> (src[k] != nil ==> copyOf_ServiceNetworkConfig(dst[k], src[k]))   // undischarged on the reference tree: not claimed
 //@   loop 1
+//@     invariant frame()
 //@     invariant forall k string :: seen(k) ==> has(src, k) && has(dst, k)
 //@     invariant forall k string :: !seen(k) ==> (has(dst, k) <==> old(has(dst, k)))
 //@     invariant forall k string :: seen(k) ==> (dst[k] == nil <==> src[k] == nil) && (src[k] != nil ==> fresh(dst[k]))
 //@?     invariant forall k string :: seen(k) ==> (src[k] != nil ==> copyOf_ServiceNetworkConfig(dst[k], src[k]))   // undischarged on the reference tree: not claimed
 
 //@ func deriveDeepCopy_19
-//@   except frame[D|Str|Any|c8c47bee8/ret1], frame[HF|T_types_ServicePortConfig|0/ret1], frame[HF|T_types_ServicePortConfig|1/ret1], frame[HF|T_types_ServicePortConfig|2/ret1], frame[HF|T_types_ServicePortConfig|3/ret1], frame[HF|T_types_ServicePortConfig|4/ret1], frame[HF|T_types_ServicePortConfig|5/ret1], frame[HF|T_types_ServicePortConfig|6/ret1], frame[HF|T_types_ServicePortConfig|7/ret1], frame[M|Str|Any|c8c47bee8/ret1], frame[S|T_types_ServicePortConfig|c48b1ecbd/ret1] : undischarged on the reference tree (engine limit or missing callee contract), not claimed
 //@   nopanic[C14,C20]
 //@   requires len(dst) >= len(src) && (len(src) > 0 ==> dst != src)
 //@   assigns dst.*
 //@?   ensures[C14] forall j int :: 0 <= j && j < len(src) ==> copyOf_ServicePortConfig(dst[j], src[j])   // undischarged on the reference tree: not claimed
 //@   loop 1
+//@     invariant frame()
 //@     invariant -1 <= rangeindex && rangeindex < len(src)
 //@?     invariant forall j int :: 0 <= j && j <= rangeindex ==> copyOf_ServicePortConfig(dst[j], src[j])   // undischarged on the reference tree: not claimed
 
@@ -1175,7 +1178,6 @@ package types
 //@   ensures[C14] (forall kk string :: has(src_value.Extensions, kk) ==> dst[src_i].Extensions[kk] == src_value.Extensions[kk])
 
 //@ func deriveDeepCopy_2
-//@   except frame[D|Str|Any|c8c47bee8/ret1], frame[D|Str|Str|cefb8f1e7/ret1], frame[D|Str|T_types_SecretConfig|c7c89da88/ret1], frame[HF|T_types_SecretConfig|0/ret1], frame[HF|T_types_SecretConfig|1/ret1], frame[HF|T_types_SecretConfig|10/ret1], frame[HF|T_types_SecretConfig|2/ret1], frame[HF|T_types_SecretConfig|3/ret1], frame[HF|T_types_SecretConfig|4/ret1], frame[HF|T_types_SecretConfig|5/ret1], frame[HF|T_types_SecretConfig|6/ret1], frame[HF|T_types_SecretConfig|7/ret1], frame[HF|T_types_SecretConfig|8/ret1], frame[HF|T_types_SecretConfig|9/ret1], frame[M|Str|Any|c8c47bee8/ret1], frame[M|Str|Str|cefb8f1e7/ret1], frame[M|Str|T_types_SecretConfig|c7c89da88/ret1] : undischarged on the reference tree (engine limit or missing callee contract), not claimed
 //@   nopanic[C14,C20]
 //@   requires dst != nil && dst != src
 //@   assigns dst.*
@@ -1183,6 +1185,7 @@ package types
 //@   ensures[C14] forall k string :: !has(src, k) ==> (has(dst, k) <==> old(has(dst, k)))
 //@?   ensures[C14] forall k string :: has(src, k) ==> copyOf_SecretConfig(dst[k], src[k])   // undischarged on the reference tree: not claimed
 //@   loop 1
+//@     invariant frame()
 //@     invariant forall k string :: seen(k) ==> has(src, k) && has(dst, k)
 //@     invariant forall k string :: !seen(k) ==> (has(dst, k) <==> old(has(dst, k)))
 //@?     invariant forall k string :: seen(k) ==> copyOf_SecretConfig(dst[k], src[k])   // undischarged on the reference tree: not claimed
@@ -1212,12 +1215,12 @@ package types
 //@   ensures[C14] (forall kk string :: has(src_value.Extensions, kk) ==> dst[src_key].Extensions[kk] == src_value.Extensions[kk])
 
 //@ func deriveDeepCopy_20
-//@   except frame[D|Str|Any|c8c47bee8/ret1], frame[HF|T_types_ServiceSecretConfig|0/ret1], frame[HF|T_types_ServiceSecretConfig|1/ret1], frame[HF|T_types_ServiceSecretConfig|2/ret1], frame[HF|T_types_ServiceSecretConfig|3/ret1], frame[HF|T_types_ServiceSecretConfig|4/ret1], frame[HF|T_types_ServiceSecretConfig|5/ret1], frame[H|Int|cddff6ea4/ret1], frame[M|Str|Any|c8c47bee8/ret1], frame[S|T_types_ServiceSecretConfig|c17967466/ret1] : undischarged on the reference tree (engine limit or missing callee contract), not claimed
 //@   nopanic[C14,C20]
 //@   requires len(dst) >= len(src) && (len(src) > 0 ==> dst != src)
 //@   assigns dst.*
 //@?   ensures[C14] forall j int :: 0 <= j && j < len(src) ==> copyOf_ServiceSecretConfig(dst[j], src[j])   // undischarged on the reference tree: not claimed
 //@   loop 1
+//@     invariant frame()
 //@     invariant -1 <= rangeindex && rangeindex < len(src)
 //@?     invariant forall j int :: 0 <= j && j <= rangeindex ==> copyOf_ServiceSecretConfig(dst[j], src[j])   // undischarged on the reference tree: not claimed
 
@@ -1236,7 +1239,6 @@ package types
 //@   ensures[C14] (forall kk string :: has(src_value.Extensions, kk) ==> dst[src_i].Extensions[kk] == src_value.Extensions[kk])
 
 //@ func deriveDeepCopy_21
-//@   except frame[D|Str|Any|c8c47bee8/ret1], frame[HF|T_types_UlimitsConfig|0/ret1], frame[HF|T_types_UlimitsConfig|1/ret1], frame[HF|T_types_UlimitsConfig|2/ret1], frame[HF|T_types_UlimitsConfig|3/ret1], frame[M|Str|Any|c8c47bee8/ret1] : undischarged on the reference tree (engine limit or missing callee contract), not claimed
 //@   nopanic[C14,C20]
 //@   requires dst != nil && dst != src
 //@   assigns dst.*
@@ -1245,18 +1247,19 @@ package types
 //@   ensures[C14] forall k string :: has(src, k) ==> (dst[k] == nil <==> src[k] == nil) && (src[k] != nil ==> fresh(dst[k]))
 //@?   ensures[C14] forall k string :: has(src, k) ==> (src[k] != nil ==> copyOf_UlimitsConfig(dst[k], src[k]))   // undischarged on the reference tree: not claimed
 //@   loop 1
+//@     invariant frame()
 //@     invariant forall k string :: seen(k) ==> has(src, k) && has(dst, k)
 //@     invariant forall k string :: !seen(k) ==> (has(dst, k) <==> old(has(dst, k)))
 //@     invariant forall k string :: seen(k) ==> (dst[k] == nil <==> src[k] == nil) && (src[k] != nil ==> fresh(dst[k]))
 //@?     invariant forall k string :: seen(k) ==> (src[k] != nil ==> copyOf_UlimitsConfig(dst[k], src[k]))   // undischarged on the reference tree: not claimed
 
 //@ func deriveDeepCopy_22
-//@   except frame[D|Str|Any|c8c47bee8/ret1], frame[HF|T_types_ServiceVolumeBind|0/ret1], frame[HF|T_types_ServiceVolumeBind|1/ret1], frame[HF|T_types_ServiceVolumeBind|2/ret1], frame[HF|T_types_ServiceVolumeBind|3/ret1], frame[HF|T_types_ServiceVolumeBind|4/ret1], frame[HF|T_types_ServiceVolumeConfig|0/ret1], frame[HF|T_types_ServiceVolumeConfig|1/ret1], frame[HF|T_types_ServiceVolumeConfig|2/ret1], frame[HF|T_types_ServiceVolumeConfig|3/ret1], frame[HF|T_types_ServiceVolumeConfig|4/ret1], frame[HF|T_types_ServiceVolumeConfig|5/ret1], frame[HF|T_types_ServiceVolumeConfig|6/ret1], frame[HF|T_types_ServiceVolumeConfig|7/ret1], frame[HF|T_types_ServiceVolumeConfig|8/ret1], frame[HF|T_types_ServiceVolumeTmpfs|0/ret1], frame[HF|T_types_ServiceVolumeTmpfs|1/ret1], frame[HF|T_types_ServiceVolumeTmpfs|2/ret1], frame[HF|T_types_ServiceVolumeVolume|0/ret1], frame[HF|T_types_ServiceVolumeVolume|1/ret1], frame[HF|T_types_ServiceVolumeVolume|2/ret1], frame[M|Str|Any|c8c47bee8/ret1], frame[S|T_types_ServiceVolumeConfig|cbcd59a70/ret1] : undischarged on the reference tree (engine limit or missing callee contract), not claimed
 //@   nopanic[C14,C20]
 //@   requires len(dst) >= len(src) && (len(src) > 0 ==> dst != src)
 //@   assigns dst.*
 //@?   ensures[C14] forall j int :: 0 <= j && j < len(src) ==> copyOf_ServiceVolumeConfig(dst[j], src[j])   // undischarged on the reference tree: not claimed
 //@   loop 1
+//@     invariant frame()
 //@     invariant -1 <= rangeindex && rangeindex < len(src)
 //@?     invariant forall j int :: 0 <= j && j <= rangeindex ==> copyOf_ServiceVolumeConfig(dst[j], src[j])   // undischarged on the reference tree: not claimed
 
@@ -1281,12 +1284,12 @@ package types
 //@   ensures[C14] (forall kk string :: has(src_value.Extensions, kk) ==> dst[src_i].Extensions[kk] == src_value.Extensions[kk])
 
 //@ func deriveDeepCopy_23
-//@   except frame[D|Str|Any|c8c47bee8/ret1], frame[D|Str|Int|cf403b835/ret1], frame[HF|T_types_ServiceHook|0/ret1], frame[HF|T_types_ServiceHook|1/ret1], frame[HF|T_types_ServiceHook|2/ret1], frame[HF|T_types_ServiceHook|3/ret1], frame[HF|T_types_ServiceHook|4/ret1], frame[HF|T_types_ServiceHook|5/ret1], frame[H|Str|cf613ccd0/ret1], frame[M|Str|Any|c8c47bee8/ret1], frame[M|Str|Int|cf403b835/ret1], frame[S|Str|ce4060d18/ret1], frame[S|T_types_ServiceHook|c7b10ac63/ret1] : undischarged on the reference tree (engine limit or missing callee contract), not claimed
 //@   nopanic[C14,C20]
 //@   requires len(dst) >= len(src) && (len(src) > 0 ==> dst != src)
 //@   assigns dst.*
 //@?   ensures[C14] forall j int :: 0 <= j && j < len(src) ==> copyOf_ServiceHook(dst[j], src[j])   // undischarged on the reference tree: not claimed
 //@   loop 1
+//@     invariant frame()
 //@     invariant -1 <= rangeindex && rangeindex < len(src)
 //@?     invariant forall j int :: 0 <= j && j <= rangeindex ==> copyOf_ServiceHook(dst[j], src[j])   // undischarged on the reference tree: not claimed
 
@@ -1411,12 +1414,12 @@ package types
 //@   ensures[C14] (forall kk string :: has(src.Extensions, kk) ==> dst.Extensions[kk] == src.Extensions[kk])
 
 //@ func deriveDeepCopy_28
-//@   except frame[D|Str|Any|c8c47bee8/ret1], frame[D|Str|Int|cf403b835/ret1], frame[HF|T_types_ServiceHook|0/ret1], frame[HF|T_types_ServiceHook|1/ret1], frame[HF|T_types_ServiceHook|2/ret1], frame[HF|T_types_ServiceHook|3/ret1], frame[HF|T_types_ServiceHook|4/ret1], frame[HF|T_types_ServiceHook|5/ret1], frame[HF|T_types_Trigger|0/ret1], frame[HF|T_types_Trigger|1/ret1], frame[HF|T_types_Trigger|2/ret1], frame[HF|T_types_Trigger|3.0/ret1], frame[HF|T_types_Trigger|3.1/ret1], frame[HF|T_types_Trigger|3.2/ret1], frame[HF|T_types_Trigger|3.3/ret1], frame[HF|T_types_Trigger|3.4/ret1], frame[HF|T_types_Trigger|3.5/ret1], frame[HF|T_types_Trigger|4/ret1], frame[HF|T_types_Trigger|5/ret1], frame[H|Str|cf613ccd0/ret1], frame[M|Str|Any|c8c47bee8/ret1], frame[M|Str|Int|cf403b835/ret1], frame[S|Str|ce4060d18/ret1], frame[S|T_types_Trigger|cc0f38b63/ret1] : undischarged on the reference tree (engine limit or missing callee contract), not claimed
 //@   nopanic[C14,C20]
 //@   requires len(dst) >= len(src) && (len(src) > 0 ==> dst != src)
 //@   assigns dst.*
 //@?   ensures[C14] forall j int :: 0 <= j && j < len(src) ==> copyOf_Trigger(dst[j], src[j])   // undischarged on the reference tree: not claimed
 //@   loop 1
+//@     invariant frame()
 //@     invariant -1 <= rangeindex && rangeindex < len(src)
 //@?     invariant forall j int :: 0 <= j && j <= rangeindex ==> copyOf_Trigger(dst[j], src[j])   // undischarged on the reference tree: not claimed
 
@@ -1443,12 +1446,12 @@ package types
 //@   ensures[C14] (forall kk string :: has(src_value.Extensions, kk) ==> dst[src_i].Extensions[kk] == src_value.Extensions[kk])
 
 //@ func deriveDeepCopy_29
-//@   except frame[D|Str|Any|c8c47bee8/ret1], frame[HF|T_types_WeightDevice|0/ret1], frame[HF|T_types_WeightDevice|1/ret1], frame[HF|T_types_WeightDevice|2/ret1], frame[M|Str|Any|c8c47bee8/ret1], frame[S|T_types_WeightDevice|c34ab9637/ret1] : undischarged on the reference tree (engine limit or missing callee contract), not claimed
 //@   nopanic[C14,C20]
 //@   requires len(dst) >= len(src) && (len(src) > 0 ==> dst != src)
 //@   assigns dst.*
 //@?   ensures[C14] forall j int :: 0 <= j && j < len(src) ==> copyOf_WeightDevice(dst[j], src[j])   // undischarged on the reference tree: not claimed
 //@   loop 1
+//@     invariant frame()
 //@     invariant -1 <= rangeindex && rangeindex < len(src)
 //@?     invariant forall j int :: 0 <= j && j <= rangeindex ==> copyOf_WeightDevice(dst[j], src[j])   // undischarged on the reference tree: not claimed
 
@@ -1464,7 +1467,6 @@ package types
 //@   ensures[C14] (forall kk string :: has(src_value.Extensions, kk) ==> dst[src_i].Extensions[kk] == src_value.Extensions[kk])
 
 //@ func deriveDeepCopy_3
-//@   except frame[D|Str|Any|c8c47bee8/ret1], frame[D|Str|Str|cefb8f1e7/ret1], frame[D|Str|T_types_ConfigObjConfig|c540f66e7/ret1], frame[HF|T_types_ConfigObjConfig|0/ret1], frame[HF|T_types_ConfigObjConfig|1/ret1], frame[HF|T_types_ConfigObjConfig|10/ret1], frame[HF|T_types_ConfigObjConfig|2/ret1], frame[HF|T_types_ConfigObjConfig|3/ret1], frame[HF|T_types_ConfigObjConfig|4/ret1], frame[HF|T_types_ConfigObjConfig|5/ret1], frame[HF|T_types_ConfigObjConfig|6/ret1], frame[HF|T_types_ConfigObjConfig|7/ret1], frame[HF|T_types_ConfigObjConfig|8/ret1], frame[HF|T_types_ConfigObjConfig|9/ret1], frame[M|Str|Any|c8c47bee8/ret1], frame[M|Str|Str|cefb8f1e7/ret1], frame[M|Str|T_types_ConfigObjConfig|c540f66e7/ret1] : undischarged on the reference tree (engine limit or missing callee contract), not claimed
 //@   nopanic[C14,C20]
 //@   requires dst != nil && dst != src
 //@   assigns dst.*
@@ -1472,6 +1474,7 @@ package types
 //@   ensures[C14] forall k string :: !has(src, k) ==> (has(dst, k) <==> old(has(dst, k)))
 //@?   ensures[C14] forall k string :: has(src, k) ==> copyOf_ConfigObjConfig(dst[k], src[k])   // undischarged on the reference tree: not claimed
 //@   loop 1
+//@     invariant frame()
 //@     invariant forall k string :: seen(k) ==> has(src, k) && has(dst, k)
 //@     invariant forall k string :: !seen(k) ==> (has(dst, k) <==> old(has(dst, k)))
 //@?     invariant forall k string :: seen(k) ==> copyOf_ConfigObjConfig(dst[k], src[k])   // undischarged on the reference tree: not claimed
@@ -1501,12 +1504,12 @@ package types
 //@   ensures[C14] (forall kk string :: has(src_value.Extensions, kk) ==> dst[src_key].Extensions[kk] == src_value.Extensions[kk])
 
 //@ func deriveDeepCopy_30
-//@   except frame[D|Str|Any|c8c47bee8/ret1], frame[HF|T_types_ThrottleDevice|0/ret1], frame[HF|T_types_ThrottleDevice|1/ret1], frame[HF|T_types_ThrottleDevice|2/ret1], frame[M|Str|Any|c8c47bee8/ret1], frame[S|T_types_ThrottleDevice|ce78aa81b/ret1] : undischarged on the reference tree (engine limit or missing callee contract), not claimed
 //@   nopanic[C14,C20]
 //@   requires len(dst) >= len(src) && (len(src) > 0 ==> dst != src)
 //@   assigns dst.*
 //@?   ensures[C14] forall j int :: 0 <= j && j < len(src) ==> copyOf_ThrottleDevice(dst[j], src[j])   // undischarged on the reference tree: not claimed
 //@   loop 1
+//@     invariant frame()
 //@     invariant -1 <= rangeindex && rangeindex < len(src)
 //@?     invariant forall j int :: 0 <= j && j <= rangeindex ==> copyOf_ThrottleDevice(dst[j], src[j])   // undischarged on the reference tree: not claimed
 
@@ -1858,12 +1861,12 @@ package types
 //@   ensures[C14] (forall kk string :: has(src.Extensions, kk) ==> dst.Extensions[kk] == src.Extensions[kk])
 
 //@ func deriveDeepCopy_50
-//@   except frame[D|Str|Any|c8c47bee8/ret1], frame[HF|T_types_PlacementPreferences|0/ret1], frame[HF|T_types_PlacementPreferences|1/ret1], frame[M|Str|Any|c8c47bee8/ret1], frame[S|T_types_PlacementPreferences|cc78aba7a/ret1] : undischarged on the reference tree (engine limit or missing callee contract), not claimed
 //@   nopanic[C14,C20]
 //@   requires len(dst) >= len(src) && (len(src) > 0 ==> dst != src)
 //@   assigns dst.*
 //@?   ensures[C14] forall j int :: 0 <= j && j < len(src) ==> copyOf_PlacementPreferences(dst[j], src[j])   // undischarged on the reference tree: not claimed
 //@   loop 1
+//@     invariant frame()
 //@     invariant -1 <= rangeindex && rangeindex < len(src)
 //@?     invariant forall j int :: 0 <= j && j <= rangeindex ==> copyOf_PlacementPreferences(dst[j], src[j])   // undischarged on the reference tree: not claimed
 
@@ -1910,24 +1913,24 @@ package types
 //@   ensures[C14] (forall kk string :: has(src.Extensions, kk) ==> dst.Extensions[kk] == src.Extensions[kk])
 
 //@ func deriveDeepCopy_54
-//@   except frame[D|Str|Any|c8c47bee8/ret1], frame[D|Str|Str|cefb8f1e7/ret1], frame[HF|T_types_IPAMPool|0/ret1], frame[HF|T_types_IPAMPool|1/ret1], frame[HF|T_types_IPAMPool|2/ret1], frame[HF|T_types_IPAMPool|3/ret1], frame[HF|T_types_IPAMPool|4/ret1], frame[M|Str|Any|c8c47bee8/ret1], frame[M|Str|Str|cefb8f1e7/ret1] : undischarged on the reference tree (engine limit or missing callee contract), not claimed
 //@   nopanic[C14,C20]
 //@   requires len(dst) >= len(src) && (len(src) > 0 ==> dst != src)
 //@   assigns dst.*
 //@?   ensures[C14] forall j int :: 0 <= j && j < len(src) ==> (dst[j] == nil <==> src[j] == nil) && (src[j] != nil ==> fresh(dst[j]))   // undischarged on the reference tree: not claimed
 //@?   ensures[C14] forall j int :: 0 <= j && j < len(src) ==> (src[j] != nil ==> copyOf_IPAMPool(dst[j], src[j]))   // undischarged on the reference tree: not claimed
 //@   loop 1
+//@     invariant frame()
 //@     invariant -1 <= rangeindex && rangeindex < len(src)
 //@?     invariant forall j int :: 0 <= j && j <= rangeindex ==> (dst[j] == nil <==> src[j] == nil) && (src[j] != nil ==> fresh(dst[j]))   // undischarged on the reference tree: not claimed
 //@?     invariant forall j int :: 0 <= j && j <= rangeindex ==> (src[j] != nil ==> copyOf_IPAMPool(dst[j], src[j]))   // undischarged on the reference tree: not claimed
 
 //@ func deriveDeepCopy_55
-//@   except frame[D|Str|Any|c8c47bee8/ret1], frame[HF|T_types_DiscreteGenericResource|0/ret1], frame[HF|T_types_DiscreteGenericResource|1/ret1], frame[HF|T_types_DiscreteGenericResource|2/ret1], frame[HF|T_types_GenericResource|0/ret1], frame[HF|T_types_GenericResource|1/ret1], frame[M|Str|Any|c8c47bee8/ret1], frame[S|T_types_GenericResource|ca7cbadd2/ret1] : undischarged on the reference tree (engine limit or missing callee contract), not claimed
 //@   nopanic[C14,C20]
 //@   requires len(dst) >= len(src) && (len(src) > 0 ==> dst != src)
 //@   assigns dst.*
 //@?   ensures[C14] forall j int :: 0 <= j && j < len(src) ==> copyOf_GenericResource(dst[j], src[j])   // undischarged on the reference tree: not claimed
 //@   loop 1
+//@     invariant frame()
 //@     invariant -1 <= rangeindex && rangeindex < len(src)
 //@?     invariant forall j int :: 0 <= j && j <= rangeindex ==> copyOf_GenericResource(dst[j], src[j])   // undischarged on the reference tree: not claimed
 
@@ -2021,12 +2024,12 @@ package types
 //@   ensures[C14] (forall kk string :: has(src.Extensions, kk) ==> dst.Extensions[kk] == src.Extensions[kk])
 
 //@ func deriveDeepCopy_8
-//@   except frame[D|Str|Any|c8c47bee8/ret1], frame[HF|T_types_ServiceConfigObjConfig|0/ret1], frame[HF|T_types_ServiceConfigObjConfig|1/ret1], frame[HF|T_types_ServiceConfigObjConfig|2/ret1], frame[HF|T_types_ServiceConfigObjConfig|3/ret1], frame[HF|T_types_ServiceConfigObjConfig|4/ret1], frame[HF|T_types_ServiceConfigObjConfig|5/ret1], frame[H|Int|cddff6ea4/ret1], frame[M|Str|Any|c8c47bee8/ret1], frame[S|T_types_ServiceConfigObjConfig|c22bbd9ed/ret1] : undischarged on the reference tree (engine limit or missing callee contract), not claimed
 //@   nopanic[C14,C20]
 //@   requires len(dst) >= len(src) && (len(src) > 0 ==> dst != src)
 //@   assigns dst.*
 //@?   ensures[C14] forall j int :: 0 <= j && j < len(src) ==> copyOf_ServiceConfigObjConfig(dst[j], src[j])   // undischarged on the reference tree: not claimed
 //@   loop 1
+//@     invariant frame()
 //@     invariant -1 <= rangeindex && rangeindex < len(src)
 //@?     invariant forall j int :: 0 <= j && j <= rangeindex ==> copyOf_ServiceConfigObjConfig(dst[j], src[j])   // undischarged on the reference tree: not claimed
 
